@@ -114,6 +114,34 @@ Definition extras_present (extras : list str) (v : var) : option bool :=
   | _ => None
   end.
 
+(** [evaluate_extras_and_python_version]: as [eval_any], but an edge of a node keyed by the python_version
+    key [pvk] may only be taken if its range contains one of the candidate versions *)
+Definition within (x : val) (lo hi : option (cut val)) : bool :=
+  match lo with None => true | Some c => negb (left_of x c) end &&
+  match hi with None => true | Some c => left_of x c end.
+
+Fixpoint eval_any_pv (pvk : N) (pvs : list version) (f : var -> option bool) (t : mdd) : bool :=
+  match t with
+  | Leaf b => b
+  | RNode k d0 ds =>
+      let allowed lo hi :=
+        match k with
+        | VVersion k' => if k' =? pvk then existsb (fun v => within (inl v) lo hi) pvs else true
+        | _ => true
+        end in
+      (fix go (lo : option (cut val)) (cur : bool) (l : list (cut val * mdd)) : bool :=
+         match l with
+         | [] => allowed lo None && cur
+         | (c, d) :: l' => (allowed lo (Some c) && cur) || go (Some c) (eval_any_pv pvk pvs f d) l'
+         end) None (eval_any_pv pvk pvs f d0) ds
+  | BNode k hi lo =>
+      match f k with
+      | Some true => eval_any_pv pvk pvs f hi
+      | Some false => eval_any_pv pvk pvs f lo
+      | None => eval_any_pv pvk pvs f hi || eval_any_pv pvk pvs f lo
+      end
+  end.
+
 (** instances of the generic operations at the concrete types (for extraction and for the theorems) *)
 Definition m_and : mdd -> mdd -> mdd := tand.
 Definition m_or : mdd -> mdd -> mdd := tor.
@@ -124,5 +152,7 @@ Definition m_wfb : mdd -> bool := wfb is_range.
 Definition m_eqb : mdd -> mdd -> bool := dd_eqb.
 Definition m_simplify_extras (extras : list str) (t : mdd) : mdd := trestrict (extras_present extras) t.
 Definition m_eval_extras (extras : list str) (t : mdd) : bool := eval_any (extras_only extras) t.
+Definition m_eval_extras_pv (pvk : N) (pvs : list version) (extras : list str) (t : mdd) : bool :=
+  eval_any_pv pvk pvs (extras_only extras) t.
 Definition m_val_cmp (a b : val) : comparison := cmp a b.
 Definition m_var_cmp (a b : var) : comparison := cmp a b.
